@@ -59,7 +59,10 @@ func newGraphBranch[T any](r *runnablePacker[T, []string, any], endNodes map[str
 		invoke: func(ctx context.Context, input any) (output []string, err error) {
 			nInput, ok := input.(T)
 			if !ok {
-				panic(newUnexpectedInputTypeErr(generic.TypeOf[T](), reflect.TypeOf(input)))
+				// a nil value of an interface-typed input carries no dynamic type: it is the zero value of T
+				if input != nil || generic.TypeOf[T]().Kind() != reflect.Interface {
+					panic(newUnexpectedInputTypeErr(generic.TypeOf[T](), reflect.TypeOf(input)))
+				}
 			}
 			return r.Invoke(ctx, nInput)
 		},
